@@ -112,6 +112,10 @@ def run_c13(ctx):
     return [run_olh(ctx, 'rewards', twin_args(ctx, ['-histories', '200', '-blocks', '30', '-maxtxs', '4'], ['-histories', '2000', '-blocks', '40', '-maxtxs', '5']))]
 
 
+def run_c17(ctx):
+    return [run_olh(ctx, 'olvm', twin_args(ctx, ['-histories', '60', '-blocks', '12', '-maxtxs', '8'], ['-histories', '1200', '-blocks', '20', '-maxtxs', '10']))]
+
+
 SHELL_ASSUME = [
     'handlers are abstracted as arbitrary interaction-tree programs; the side conditions of the generic theorems (AllAimed, NoVset, EnvFree, GasBlind, VolDerived) are discharged for the real code by the regenerated fact tables (T3, `decide`) where a static fact exists, and otherwise exercised dynamically by the twin-replica engines',
     'the shell model is tied to app/controller.go by the `shell` engine: every ABCI call of generated histories (with CheckTx calls and restarts mixed in) is re-run by the Lean model with handlers abstracted to their observed writes; block-cache digests, results, index short-circuits, commit write logs (replayed into IAVL against the real application hash) and Info after restarts must agree',
@@ -276,4 +280,16 @@ PROPS = {
             'reward options never change after genesis (governance validation rejects any change: ValidateRewards requires DeepEqual); int64 overflow of heights / seconds is out of scope',
         ],
         model_limits='handleBlockRewards is modelled from PullRewards to ConsumeRewards on decoded records (early error returns for a missing currency / undecodable power / missing pool list are not reachable from a valid genesis and not modelled); the calculator cache is private to the implementation, the driver threads its own copy per replica; the amount the implementation pulls is read from the application\'s own calculator object (cache included) by a PullRewards call on a throw-away State over the committed tree immediately before BeginBlock (same height, same records, so BeginBlock\'s own call returns the same amount and the cache is left as BeginBlock would leave it; an unprobed, never-restarted third replica checks this in every 5th history); chunk-matures-once is proved for chains without interval records (the running chain never writes one), interval records from an exported-state genesis are covered by the correspondence only'),
+    'C17': dict(
+        lean_modules=['OLP.Props.C17'], namespaces=['OLP.Props.C17'],
+        required_theorems=['one_ledger', 'one_ledger_history', 'step_keeps_cache_empty', 'stale_cache_breaks_one_ledger',
+                           'sender_debit_exact', 'feepool_credit_exact', 'gas_used_within_limit', 'recipient_credit_exact',
+                           'created_contract_credit_exact', 'bystander_untouched', 'nonce_plus_one', 'precheck_failure_noop',
+                           'checktx_changes_nothing', 'olvm_conserves_value_partial', 'selfdestruct_creates_value',
+                           'nonce_above_state_executes_and_can_be_reused'],
+        run=run_c17, replay=replay_olh('olvm'), level='proof',
+        assumptions=['the run of the EVM interpreter (go-ethereum v1.10.8, trusted) is a parameter of the model: gas left, refund counter, error flag, returned-code flag and the ordered balance-changing calls it made on the StateDB interface (SubBalance / AddBalance / Suicide) that survived its own reverts, plus the addresses whose balance entries its reverts undid; in the correspondence these come from a reference run of the same interpreter on go-ethereum\'s own state (core/state over a memory db), not from the implementation',
+                     'signature recovery (EIP-155), chain-id comparison, JSON / RLP sizes and strconv.ParseUint of the memo are decoded facts of a transaction (Tx.sigOk, chainOk, senderOk, size, memo); keccak is not modelled: the address of a created contract is an input',
+                     'the theorems about an executed transaction are stated for an empty EVM object cache (an invariant of every history: step_keeps_cache_empty), no negative stored balance of the credited account (C02), and - for the exact sender / recipient / bystander equalities - accounts whose balance the contract code itself does not move; value conservation is proved for runs without a surviving SELFDESTRUCT (the code loses the ledger there, KF-C17-1)'],
+        model_limits='contract storage, code bytes and logs are not modelled (C16); precompile recipients and contracts that CREATE are neither generated nor modelled; transactions that make Validate panic (signature field not 65 bytes, payload without chain id) close the node and belong to C18: the model marks them as panic, the generator does not produce them; branches of the model that the application cannot reach through ABCI in this tree because Validate runs first (TransitionDb nonce / EOA / funds / intrinsic-gas errors, ContractFeeHandling gas overflow, EVM.Call / create insufficient balance, address collision) are covered by the theorems but not by the correspondence; in the finite-block-gas family a transaction whose gas limit is within 3000 of what the block has left is not compared (the harness cannot observe the pool at the instant of buyGas)'),
 }
